@@ -150,7 +150,7 @@ def unit_step(cfg):
             nst = run(ctx, lambda a, e, p, s, kk: a.step(e, p, s, key=kk, callback=cb), algo, env_in, pol_in, st, k)
         adds = [c for c in ctx.calls if c.name == "ADD#"]
         rp = native_replay_factory(cfg)
-        S.fact("step/adds-exactly-one-transition", len(adds) == 1, function=F_STEP, what=f"[{cfg}] step inserts exactly one transition", replay=rp)
+        S.fact("step/adds-exactly-one-transition", len(adds) == 1, shape=False, function=F_STEP, what=f"[{cfg}] step inserts exactly one transition", replay=rp)
         if len(adds) != 1:
             return
         c = adds[0]
@@ -315,7 +315,7 @@ def unit_reset(S):
             if lanes_ok and n_envs > 1:
                 mask = warm[0].levels[0]
                 lanes_ok = all(mask)  # step state AND key are per-lane
-            S.fact(f"{tag}/warm-up-once-per-environment", lanes_ok, function=F_RESET, replay=(lambda m: __import__("contracts.C12", fromlist=["x"]).native_reset_lane_replay(m)),
+            S.fact(f"{tag}/warm-up-once-per-environment", lanes_ok, shape=False, function=F_RESET, replay=(lambda m: __import__("contracts.C12", fromlist=["x"]).native_reset_lane_replay(m)),
                    what="collect_learning_starts runs once per environment (vmapped pointwise over step state and key) before reset returns", detail=[c.levels for c in warm])
             S.fact(f"{tag}/per-environment-capacity", state.step_state.buffer.size == cap, function=F_RESET,
                    what="each environment owns a buffer of capacity buffer_size // num_envs", detail=state.step_state.buffer.size)
